@@ -85,4 +85,17 @@ def fsReadSites : List (String × String × String) := [
 
 def mutableGlobals : List String := ["api/internal/plugins/builtinconfig.defaultConfig", "api/internal/plugins/loader.registry", "kyaml/openapi.customSchema", "kyaml/openapi.globalSchema", "kyaml/openapi.kubernetesOpenAPIVersion"]
 
+/-- package-level variables whose address — or the shared object they point to — is handed to a call on the build path
+    (outside `init`): the callee may keep state there.  (variable, callee, why it is no history channel) -/
+def globalsByRef : List (String × String × String) := [
+  ("api/internal/plugins/builtinconfig.defaultConfig", "(*api/internal/plugins/builtinconfig.TransformerConfig).DeepCopy", "read-only: copied before use"),
+  ("api/internal/plugins/builtinconfig.initDefaultConfig", "(*sync.Once).Do", "one-time initialisation of an immutable table"),
+  ("ext:encoding/base64.StdEncoding", "(*encoding/base64.Encoding).Encode", "immutable codec"),
+  ("ext:encoding/base64.StdEncoding", "(*encoding/base64.Encoding).EncodedLen", "immutable codec"),
+  ("kyaml/openapi.schemaLock", "(*sync.RWMutex).Lock", "the schema lock itself"),
+  ("kyaml/openapi.schemaLock", "(*sync.RWMutex).RLock", "the schema lock itself"),
+  ("kyaml/openapi.schemaLock", "(*sync.RWMutex).RUnlock", "the schema lock itself"),
+  ("kyaml/openapi.schemaLock", "(*sync.RWMutex).Unlock", "the schema lock itself")
+]
+
 end Kust.Reviewed
